@@ -1,0 +1,14 @@
+//go:build verif
+
+package cluster
+
+// VerifSendShardHook, when set, is called at the start of the shard-chunk
+// receive handler (after routing). Returning an error fails the chunk.
+var VerifSendShardHook func(args *RPCSendShardRequest) error
+
+func verifSendShard(args *RPCSendShardRequest) error {
+	if h := VerifSendShardHook; h != nil {
+		return h(args)
+	}
+	return nil
+}
